@@ -66,7 +66,8 @@ type tSource struct {
 // tCode: one member of the template family.
 // form 0: data = the whole config (range); 1: data = picked destinations via .config.kN (missingkey=error);
 // 2: picked destinations via index|default; 3: whole config + environment version under key 99;
-// 4: unparsable template text; 5: renders to text that is not YAML; 6: like 3 + the HyperShift part of the environment under key 98.
+// 4: unparsable template text; 5: renders to text that is not YAML; 6: like 3 + the HyperShift part of the environment under key 98;
+// 7: like 0 + every collected value also as a label (key + 1000) and as an annotation (key + 2000).
 type tCode struct {
 	Form  int   `json:"form"`
 	Kind  int   `json:"kind"`
@@ -288,9 +289,44 @@ func tDataKey(prefix string, n int) string {
 func tConcreteData(prefix string, d [][2]int) map[string]any {
 	out := map[string]any{}
 	for _, kv := range d {
-		out[tDataKey(prefix, kv[0])] = "v" + strconv.Itoa(kv[1])
+		if kv[0] < 1000 {
+			out[tDataKey(prefix, kv[0])] = "v" + strconv.Itoa(kv[1])
+		}
 	}
 	return out
+}
+
+// tSetContent replaces .data, the labels other than the cache label, and the annotations of m by what d says.
+func tSetContent(m map[string]any, prefix string, d [][2]int) {
+	m["data"] = tConcreteData(prefix, d)
+	u := &unstructured.Unstructured{Object: m}
+	labels := map[string]string{}
+	if v, ok := u.GetLabels()[constants.DynamicCacheLabel]; ok {
+		labels[constants.DynamicCacheLabel] = v
+	}
+	annos := map[string]string{}
+	for _, kv := range d {
+		switch {
+		case kv[0] >= 2000:
+			annos["a"+strconv.Itoa(kv[0]-2000)] = "v" + strconv.Itoa(kv[1])
+		case kv[0] >= 1000:
+			labels["l"+strconv.Itoa(kv[0]-1000)] = "v" + strconv.Itoa(kv[1])
+		}
+	}
+	if len(labels) == 0 {
+		labels = nil
+	}
+	if len(annos) == 0 {
+		annos = nil
+	}
+	u.SetLabels(labels)
+	u.SetAnnotations(annos)
+}
+
+func tSameContent(a, b map[string]any) bool {
+	x, _ := json.Marshal(tAbsData(a))
+	y, _ := json.Marshal(tAbsData(b))
+	return string(x) == string(y)
 }
 
 func tNum(s string) int {
@@ -310,17 +346,31 @@ func tNum(s string) int {
 	return n
 }
 
+// tAbsData: the content of an object as one map: .data keys as they are, metadata.labels (other than the cache
+// label) + 1000, metadata.annotations + 2000.
 func tAbsData(m map[string]any) [][2]int {
 	out := [][2]int{}
-	d, _, _ := unstructured.NestedMap(m, "data")
-	for k, v := range d {
-		s, ok := v.(string)
-		if !ok {
-			out = append(out, [2]int{tNum(k), -1})
-			continue
+	add := func(path []string, off int) {
+		d, _, _ := unstructured.NestedMap(m, path...)
+		for k, v := range d {
+			if k == constants.DynamicCacheLabel {
+				continue
+			}
+			kn := tNum(k)
+			if kn >= 0 {
+				kn += off
+			}
+			s, ok := v.(string)
+			if !ok {
+				out = append(out, [2]int{kn, -1})
+				continue
+			}
+			out = append(out, [2]int{kn, tNum(s)})
 		}
-		out = append(out, [2]int{tNum(k), tNum(s)})
 	}
+	add([]string{"data"}, 0)
+	add([]string{"metadata", "labels"}, 1000)
+	add([]string{"metadata", "annotations"}, 2000)
 	sort.Slice(out, func(i, j int) bool { return out[i][0] < out[j][0] })
 	return out
 }
@@ -362,7 +412,8 @@ func (o tObj) concrete(prefix string) map[string]any {
 		md["ownerReferences"] = []any{map[string]any{"apiVersion": "apps/v1", "kind": "Deployment",
 			"name": "someone", "uid": "u99", "controller": true}}
 	}
-	m := map[string]any{"apiVersion": i.apiVersion, "kind": i.kind, "metadata": md, "data": tConcreteData(prefix, o.Data)}
+	m := map[string]any{"apiVersion": i.apiVersion, "kind": i.kind, "metadata": md}
+	tSetContent(m, prefix, o.Data)
 	if st := tConcreteStatus(o.SObs, o.Conds); st != nil {
 		m["status"] = st
 	}
@@ -484,6 +535,11 @@ func tTemplateText(c tCode) string {
 	i := tkTable[c.Kind]
 	var b strings.Builder
 	fmt.Fprintf(&b, "apiVersion: %s\nkind: %s\nmetadata:\n  name: n%d\n", i.apiVersion, i.kind, c.Name)
+	if c.Form == 7 {
+		// every collected value also as a label and as an annotation
+		b.WriteString("  labels:\n{{- range $k, $v := .config }}\n    {{ $k | replace \"k\" \"l\" }}: {{ $v | quote }}\n{{- end }}\n")
+		b.WriteString("  annotations:\n{{- range $k, $v := .config }}\n    {{ $k | replace \"k\" \"a\" }}: {{ $v | quote }}\n{{- end }}\n")
+	}
 	if c.NS != 0 {
 		fmt.Fprintf(&b, "  namespace: %s\n", tNsName(c.NS))
 	}
@@ -492,9 +548,9 @@ func tTemplateText(c tCode) string {
 	}
 	b.WriteString("data:\n")
 	switch c.Form {
-	case 0, 3, 6:
+	case 0, 3, 6, 7:
 		b.WriteString("{{- range $k, $v := .config }}\n  {{ $k }}: {{ $v | quote }}\n{{- end }}\n")
-		if c.Form != 0 {
+		if c.Form == 3 || c.Form == 6 {
 			b.WriteString("  e: {{ .environment.kubernetes.version | quote }}\n")
 		}
 		if c.Form == 6 {
@@ -648,8 +704,8 @@ func (h *tHarness) before() error {
 			k := h.objKey(*a.Key)
 			if old := h.s.RawGet(k); old != nil {
 				upd := deepCopyMap(old)
-				upd["data"] = tConcreteData("k", a.Data)
-				if !dataEq(old, upd) {
+				tSetContent(upd, "k", a.Data)
+				if !tSameContent(old, upd) {
 					u := &unstructured.Unstructured{Object: upd}
 					u.SetGeneration(u.GetGeneration() + 1)
 					h.s.RawPut(upd, true)
@@ -1007,8 +1063,8 @@ func (h *tHarness) stepPut(st tStep) bool {
 		h.s.RawPut(new, true)
 	} else {
 		new = deepCopyMap(old)
-		new["data"] = tConcreteData("k", st.Data)
-		if dataEq(old, new) {
+		tSetContent(new, "k", st.Data)
+		if tSameContent(old, new) {
 			return false // nothing changes on the API server: no watch event
 		}
 		u := &unstructured.Unstructured{Object: new}
